@@ -508,7 +508,7 @@ def run_tool(b, tool, case, switches, workroot, timeout=20):
         env["EXPRESS_PATH"] = case.express_path
     args = [b.tool(tool)]
     for o, nm in switches:
-        args += ["-" + o, nm]
+        args += ["-" + o] + ([nm] if nm is not None else [])       # (o, None): a flag without an argument, e.g. -B
     args.append(case.path())
     try:
         r = subprocess.run(args, cwd=d, env=env, capture_output=True, timeout=timeout)
